@@ -352,13 +352,10 @@ Definition issue (x : xsys) (g : seg) (kind : N) (id : N) (arg : bytes) : xsys *
     end
   else if (kind =? 118) || (kind =? 121) then   (* v / y *)
     let cmds := map parse_any (split_specs arg) in
-    match cmds with
-    | [] => if kind =? 118 then (x, add_res g id (b "ok[]")) else (x, add_res g id (b "bad-arity"))
-    | _ =>
-      match all_some_l (map any_line cmds) with
-      | Some ls => enqueue (if kind =? 118 then KVec cmds else KTuple cmds) (render_list ls)
-      | None => (x, set_panic g)
-      end
+    match typed_list_start cmds with
+    | LSNothing => if kind =? 118 then (x, add_res g id (show_typed (vec_responses cmds []))) else (x, add_res g id (b "bad-arity"))
+    | LSRequest bs => enqueue (if kind =? 118 then KVec cmds else KTuple cmds) bs
+    | LSPanic => (x, set_panic g)
     end
   else   (* a *)
     let st := art_start (unhex arg) in
